@@ -462,8 +462,7 @@ class State(object):
         atoms = set()
         for l in lins:
             base_atoms(l, atoms)
-        if STRICT_WITNESS and _WIDE.search(repr(lins)):
-            return None
+
         for a in extra_atoms:
             atoms.add(a)
         rel_facts = []
@@ -489,7 +488,33 @@ class State(object):
         rel_ne = [f for f in self.nefacts if base_atoms(f) & atoms]
         for f in rel_ne:
             atoms |= base_atoms(f)
-        if STRICT_WITNESS and not getattr(self, 'allow_abstract_witness', False) and any(_WIDE.search(repr(a)) for a in atoms):
+        allow = self.flags.get('allow-abstract-witness')     # a rule may exempt a class of symbols it has shown to be arbitrary (regex)
+
+        def is_abs(a):
+            return bool(_WIDE.search(allow.sub('', repr(a)) if allow is not None else repr(a)))
+        first_iter = []
+        if STRICT_WITNESS and any(is_abs(a) for a in atoms):
+            # A symbol that stands for a loop-carried value may still take part when it is pinned to the value the slot has on loop
+            # entry and the loop was abstracted at its first arrival: the model then describes the first iteration, a real execution.
+            ent = self.entry_terms()
+            grew = True
+            while grew:
+                grew = False
+                for a in list(atoms):
+                    if is_abs(a) and a in ent and (a, ent[a]) not in first_iter:
+                        first_iter.append((a, ent[a]))
+                        for b in base_atoms(ent[a]):
+                            if b not in atoms:
+                                atoms.add(b)
+                                grew = True
+            pinned = set(a for a, e in first_iter)
+            for a, e in first_iter:
+                d = Lin.atom(a) - e
+                rel_facts.append(d)
+                rel_facts.append(-d)
+        if STRICT_WITNESS and any(is_abs(a) and a not in set(x for x, e in first_iter) for a in atoms):
+            if _os.environ.get('STV_DEBUG_WITNESS'):
+                print('NOWITNESS', [repr(a)[:80] for a in atoms if _WIDE.search(allow.sub('', repr(a)) if allow is not None else repr(a))][:6])
             # a symbol that stands for lost precision (a widened loop value, a havoc'd read) takes part, directly or through a fact that
             # ties it to the queried symbols: an assignment to it is a model of the abstraction, not of an execution - no witness
             return None
@@ -602,6 +627,28 @@ class State(object):
                     break
             return None
         return rec(0)
+
+    def entry_terms(self):
+        """{symbol of a loop-carried slot at the head of its (abstracted-at-first-arrival) loop -> term of the slot on loop entry}"""
+        out = {}
+        for k, begin in self.flags.items():
+            if not (isinstance(k, str) and k.startswith('hbegin:')):
+                continue
+            if not self.flags.get('hfirst:' + k[7:]):
+                continue
+            entry = self.flags.get('hentry:' + k[7:]) or {}
+            for nm, bv in (begin or {}).items():
+                ev = entry.get(nm)
+                bt = bv.off if isinstance(bv, PtrV) and bv.obj is not None else (bv.lin if isinstance(bv, IntV) else None)
+                et = ev.off if isinstance(ev, PtrV) and ev.obj is not None else (ev.lin if isinstance(ev, IntV) else None)
+                if bt is None or et is None:
+                    continue
+                if isinstance(bv, PtrV) and isinstance(ev, PtrV) and bv.obj != ev.obj:
+                    continue
+                sa = bt.single_atom()
+                if sa is not None and sa[1] == 1 and sa[2] == 0:
+                    out[sa[0]] = et
+        return out
 
     # ------------------------------------------------------------------ misc
     def ev(self, *e):
